@@ -236,6 +236,22 @@ def run(ctx):
             c.arrays = [gencalls.int_data(ctx.rng, np.shape(c.arrays[0]))]
             c.op = "sum"
         cases.append(c)
+    # a bracket that holds several axes, one of them of length 1: the function still receives every bracketed axis
+    for _ in range(12 if ctx.tier == "quick" else 300):
+        nm = ctx.rng.sample(["a", "b", "c", "d"], 3)
+        sizes = [ctx.rng.choice([2, 3]), 1, ctx.rng.choice([2, 4])]
+        ctx.rng.shuffle(sizes)
+        axes = [gencalls.Ax(n_, s_) for n_, s_ in zip(nm, sizes)]
+        k = ctx.rng.randrange(3)
+        for i, a in enumerate(axes):
+            a.marked = (i != k) if sizes[k] != 1 else (i != k)
+        if sum(1 for a in axes if a.marked and a.size == 1) == 0:
+            continue
+        dims = [a.copy() for a in axes]
+        outs = [[a.copy() for a in axes if not a.marked]]
+        c = gencalls.Call("reduce", "sum", [dims], outs, [gencalls.int_data(ctx.rng, gencalls.shape_of(dims))])
+        c.describe(ctx.rng)
+        cases.append(c)
     plans = ctx.model.batch([sx(gencalls.plan_request(c)) for c in cases])
     items = [(c, p, ctx.rng.randrange(1 << 30)) for c, p in zip(cases, plans)]
     res = common.pmap(_work, items)
